@@ -40,7 +40,7 @@ def reader_oracle(fn):
 def project(line, keep_growth):
     """What the exact comparison looks at."""
     line = canon(line)
-    if keep_growth:
+    if keep_growth or '<' in line:
         return line
     toks, _ = split_obs(line)
     return ';'.join(strip_growth(t) for t in toks)
